@@ -2,7 +2,7 @@
    Property theorems only: every theorem is closed by [exact] of a lemma proved in Res/HashProofs.v or
    Res/GeneratorsProofs.v.  Model: Res/Hash.v, Res/Generators.v (tied to /repo by Corr/C06.v + harness/c06.go;
    the decision tables are the generated ones of Gen/HasherTables.v). *)
-From KV Require Import Res.Hash Res.HashProofs Res.Generators Res.GeneratorsProofs.
+From KV Require Import Res.Hash Res.HashProofs Res.Generators Res.GeneratorsProofs Res.GeneratorsInvariance.
 Local Open Scope string_scope.
 
 (* ---------------------------------------------------------------- dictionary semantics of layering *)
@@ -153,6 +153,16 @@ Theorem C06_invariance_transformers :
   forall d o, content_of (xform1 d o) = content_of o.
 Proof. exact xform1_content. Qed.
 Print Assumptions C06_invariance_transformers.
+
+(* C06_invariance at the level of whole builds, for EVERY tree of kustomizations: if two trees differ only in
+   label / annotation directives (commonLabels, commonAnnotations, labels and annotations of generatorOptions and
+   of the generators' own options; [layer_sim]), their builds have the same outcome and, object by object, the same
+   kind, name (hence the same suffix), namespace, previous ids, data, binaryData, type, immutable flag
+   ([strip] erases labels and annotations only). *)
+Theorem C06_invariance_build :
+  forall l l', layer_sim l l' -> res_map (map strip) (build l) = res_map (map strip) (build l').
+Proof. exact build_meta_invariant. Qed.
+Print Assumptions C06_invariance_build.
 
 (* the suffix: 10 characters of "2456789bcdfghkmt" *)
 Theorem C06_suffix_shape :
